@@ -104,7 +104,7 @@ def execute(ctx: RunCtx) -> None:
             v = Violation(f"C13/{mm.inv}", mm.msg + f" [e2e {cfgd}]")
             state["pending"] = state["pending"] or v
             raise v
-        kind = ds.choose(3, f"corrector[{model.calls}]", (1.0 - pfail, pfail * 0.6, pfail * 0.4))
+        kind = ds.choose(4, f"corrector[{model.calls}]", (1.0 - pfail, pfail * 0.5, pfail * 0.3, pfail * 0.2))
         if kind == 1:
             ctx.fault("forced_ConvergenceError")
             state["outcomes"] += "c"
@@ -130,21 +130,30 @@ def execute(ctx: RunCtx) -> None:
             ctx.probe("real_corrector_failed")
             model.on_outcome(False)
             raise
+        if kind == 3:
+            # the correction comes back flagged as not converged instead of raising: a failed correction all the same
+            import dataclasses
+            ctx.fault("returned_flagged_unconverged")
+            state["outcomes"] += "u"
+            model.on_outcome(False)
+            return dataclasses.replace(res, converged=False)
         state["outcomes"] += "A"
         xc = np.array(res.x_corrected, float)
         model.on_outcome(bool(res.converged), xc if res.converged else None)
         state["records"].append({"x": xc, "T": 2.0 * float(res.half_period), "res": float(res.residual_norm), "conv": bool(res.converged)})
         return res
 
+    prior = None
     if prior_generate:
         # the seed object already produced another family (other limits): this one must not inherit anything from it
         try:
-            seed.generate(OrbitContinuationOptions(target=([x_seed[i] - 1000 * mag for i in idxs], [x_seed[i] + 1000 * mag for i in idxs]),
+            prior = seed.generate(OrbitContinuationOptions(target=([x_seed[i] - 1000 * mag for i in idxs], [x_seed[i] + 1000 * mag for i in idxs]),
                                                    step=tuple(-v for v in steps_l), max_members=2,
                                                    max_retries_per_step=0, step_min=1e-10, step_max=1.0, extra_params=extra))
             ctx.probe("prior_generate")
+            prior = (prior, [(o, np.array(o.initial_state, float), o.period) for o in prior.family], int(prior.accepted_count), int(prior.rejected_count))
         except Exception:
-            pass
+            prior = None
     PeriodicOrbit.correct = correct_with_faults
     try:
         try:
@@ -197,6 +206,17 @@ def execute(ctx: RunCtx) -> None:
                                                      f"(seed period {T_seed if seed_has_period else None!r})")
             if not (rec["res"] < tol):
                 raise Violation("C13/member-constraint", f"{what}: member {i} was accepted with residual {rec['res']:.3e} >= tol {tol:.1e}")
+    # members are objects of their own
+    for i in range(len(fam_objs)):
+        for j in range(i + 1, len(fam_objs)):
+            if fam_objs[i] is fam_objs[j]:
+                raise Violation("C13/I8-family-content", f"{what}: members {i} and {j} are the same object")
+    if prior is not None:
+        pres, psnap, pacc, prej = prior
+        if pres.family is result.family or len(pres.family) != len(psnap) or int(pres.accepted_count) != pacc or int(pres.rejected_count) != prej \
+                or any(o is not o0 or not np.array_equal(np.array(o.initial_state, float), x0_) or o.period != T0_
+                       for o, (o0, x0_, T0_) in zip(pres.family, psnap) if o is not seed):
+            raise Violation("C13/earlier-result-changed", f"{what}: the result of an earlier generate() on the same seed was changed by this one")
     # the family container built from the result (third observation point of the property)
     from hiten.system.family import OrbitFamily
     try:
